@@ -1,4 +1,5 @@
 """C02 — unbounded SPSC queue: node hand-off, ownership, allocation cap (DESIGN §4 C02)."""
+import re
 from qlib import (AnalysisBroken, atomic_op, is_release, is_acquire, is_this_field, field_name, strip, norm_cmp,
                   is_call, const_val, is_null, isnode, walk, short, var_ref, expr_key, CMP_FLIP)
 import roles as roles_mod
@@ -52,6 +53,12 @@ def run(ctx):
         check_r4(ctx, byname)
         check_r5(ctx, meths)
         check_empty_semantics(ctx, byname)
+        check_cap_passthrough(ctx, facts, cfg)
+        # the caller's side of 'the reservation fails so the caller blocks or drops': a failed reservation is never written through
+        # (shared with C08.R1/R2)
+        from rules import c08
+        from rules.c09 import Renamed
+        c08.r1_r2(Renamed(ctx, "C08.R", "C02.R7-"), facts, cfg)
 
 
 def check_r1(ctx, facts, cfg, byname, roles):
@@ -420,6 +427,60 @@ def check_r5(ctx, meths):
     starts = any(is_this_field(x, "_consumer") for x in m.walk() if x["k"] == "MemberExpr")
     ctx.ob("C02.R5", "~UnboundedSPSCQueue:frees-chain", ok and starts and len(dels) >= 1,
            "the destructor walks next from _consumer and deletes every remaining node", fn=m)
+
+
+def check_cap_passthrough(ctx, facts, cfg, rule="C02.R4g"):
+    """the configured maximum reaches the queue unchanged: FrontendOptions::unbounded_queue_max_capacity -> ScopedThreadContext ->
+    ThreadContext -> UnboundedSPSCQueue::_max_capacity, each hop forwarding its own parameter as it is"""
+    hops = []
+    # get_local_thread_context<FO>: the static local is constructed from FO's four constants, in order
+    n = 0
+    for f in facts.fns:
+        if f.config != cfg or f.short != "quill::detail::get_local_thread_context":
+            continue
+        n += 1
+        cons = [x for x in f.walk() if x["k"] in ("CXXConstructExpr", "CXXTemporaryObjectExpr") and "ScopedThreadContext" in (x.get("callee") or x.get("ty") or "")]
+        ok = False
+        for c in cons:
+            a = c.get("args") or []
+            if len(a) >= 3:
+                names = [[x.get("name", "").split("::")[-1] for x in walk(arg) if x["k"] == "DeclRefExpr" and x.get("dk") in ("Var", "EnumConstant", "VarTemplateSpecialization") or
+                          (x["k"] == "DeclRefExpr" and "unbounded_queue_max_capacity" in x.get("name", ""))] for arg in a]
+                raw = strip(a[2], casts=True)
+                ok = isnode(raw) and raw["k"] == "DeclRefExpr" and raw.get("name", "").endswith("unbounded_queue_max_capacity")
+        hops.append(("get_local_thread_context", ok, f))
+    if n == 0:
+        raise AnalysisBroken("get_local_thread_context instantiations not found")
+    def forwards(f, callee_pat, arg_index, param_index, what):
+        ps = f.rec.get("params") or []
+        cons = [x for x in f.walk() if (x["k"] in ("CXXConstructExpr", "CXXTemporaryObjectExpr", "CallExpr", "CXXNewExpr")) and re.search(callee_pat, (x.get("callee") or "") + " " + (x.get("ty") or ""))]
+        ok = False
+        for c in cons:
+            a = c.get("args") or []
+            if len(a) > arg_index and len(ps) > param_index:
+                ok = ok or var_ref(a[arg_index]) == ps[param_index]["did"]
+        hops.append((what, ok, f))
+    stc = [f for f in facts.fns if f.config == cfg and f.cls == "quill::detail::ScopedThreadContext" and f.rec.get("ctor") and len(f.rec.get("params") or []) == 4]
+    tc = [f for f in facts.fns if f.config == cfg and f.cls == "quill::detail::ThreadContext" and f.rec.get("ctor") and len(f.rec.get("params") or []) == 4]
+    uq = [f for f in facts.fns if f.config == cfg and f.cls == CLS and f.rec.get("ctor") and len(f.rec.get("params") or []) >= 2]
+    if not stc or not tc or not uq:
+        raise AnalysisBroken("ScopedThreadContext / ThreadContext / UnboundedSPSCQueue constructors not found")
+    # ScopedThreadContext: make_shared<ThreadContext>(queue_type, initial, max, policy)
+    f = stc[0]
+    ok = False
+    for i in f.rec.get("inits") or []:
+        for x in walk(i.get("expr")):
+            if is_call(x, r"^std::make_shared<quill::(v\d+::)?detail::ThreadContext") and len(x["args"]) >= 3:
+                ok = var_ref(x["args"][2]) == f.rec["params"][2]["did"]
+    hops.append(("ScopedThreadContext", ok, f))
+    forwards(tc[0], r"UnboundedSPSCQueue", 1, 2, "ThreadContext")
+    f = uq[0]
+    ok = any(i.get("member") == "_max_capacity" and var_ref(i.get("expr")) == f.rec["params"][1]["did"] for i in f.rec.get("inits") or [])
+    hops.append(("UnboundedSPSCQueue", ok, f))
+    for (what, ok, f) in hops[:1] + hops[n:]:
+        ctx.ob(rule, "max-capacity-pass-through:%s" % what, ok,
+               "%s hands the configured unbounded_queue_max_capacity on exactly as it received it (not rounded, scaled or replaced): the "
+               "limit the queue enforces is the limit the user set" % what, fn=f)
 
 
 def check_empty_semantics(ctx, byname, rule="C02.R6"):
